@@ -325,6 +325,94 @@ M("c02-mul-before-unary", "C02", "src/ckl/parser.py",
             return call''', "unary minus takes a whole product as operand")
 
 
+# ---- C04
+M("c04-set-loop-unsorted", "C04", "src/ckl/nodes.py",
+  '''        if lst.isSet():
+            values = lst.getSortedItems()
+            result = TRUE''', '''        if lst.isSet():
+            values = list(lst.value)
+            result = TRUE''', "for over a set follows the host order")
+M("c04-map-loop-insertion", "C04", "src/ckl/nodes.py",
+  '''            values = [(k, lst.value[k]) for k in sorted(lst.value.keys())]''',
+  '''            values = [(k, lst.value[k]) for k in lst.value.keys()]''',
+  "for over a map follows insertion order")
+M("c04-compr-cond-inverted", "C04", "src/ckl/nodes.py",
+  '''                        f"Condition must be boolean "
+                        f"but got {condition.type()}",
+                        self.pos,
+                    )
+                if condition.value:
+                    result.addItem(value)
+            else:
+                result.addItem(value)
+        return result
+
+    def __repr__(self):
+        return (
+            "["
+            + repr(self.valueExpr)
+            + " for "
+            + repr(self.identifier)
+            + " in "''', '''                        f"Condition must be boolean "
+                        f"but got {condition.type()}",
+                        self.pos,
+                    )
+                if not condition.value:
+                    result.addItem(value)
+            else:
+                result.addItem(value)
+        return result
+
+    def __repr__(self):
+        return (
+            "["
+            + repr(self.valueExpr)
+            + " for "
+            + repr(self.identifier)
+            + " in "''', "list comprehension filter inverted")
+M("c04-while-break-propagates", "C04", "src/ckl/nodes.py",
+  '''            result = self.block.evaluate(environment)
+            if result.isBreak():
+                result = TRUE
+                break
+            elif result.isContinue():
+                result = TRUE
+                # continue
+            elif result.isReturn():
+                break
+            condition = self.expression.evaluate(environment)''',
+  '''            result = self.block.evaluate(environment)
+            if result.isBreak():
+                break
+            elif result.isContinue():
+                result = TRUE
+                # continue
+            elif result.isReturn():
+                break
+            condition = self.expression.evaluate(environment)''',
+  "break inside while also leaves the enclosing loop")
+M("c04-while-continue-is-break", "C04", "src/ckl/nodes.py",
+  '''            elif result.isContinue():
+                result = TRUE
+                # continue
+            elif result.isReturn():
+                break
+            condition = self.expression.evaluate(environment)''',
+  '''            elif result.isContinue():
+                result = TRUE
+                break
+            elif result.isReturn():
+                break
+            condition = self.expression.evaluate(environment)''',
+  "continue inside while ends the loop")
+M("c04-string-loop-skips-last", "C04", "src/ckl/nodes.py",
+  '''            for i in range(len(s)):
+                environment.put(self.identifiers[0], ValueString(s[i:i+1]))''',
+  '''            for i in range(len(s) - 1 if len(s) > 2 else len(s)):
+                environment.put(self.identifiers[0], ValueString(s[i:i+1]))''',
+  "for over a string of length >= 3 skips the last character")
+
+
 def run(cmd, cwd, env=None, timeout=3600):
     t0 = time.time()
     try:
